@@ -22,7 +22,7 @@ GLOBALS = ['gScore', 'gLevel', 'gList', 'g']
 PROPS = ['pWidth', 'pName', 'p']
 EXT_FUNCS = ['put', 'beep', 'alert', 'random', 'abs', 'length', 'string', 'getAt', 'count', 'append', 'go', 'puppetSprite',
              'updateStage', 'findPos', 'getaProp', 'return', 'doIt', 'continue', 'cast', 'new', 'birth', 'sound']
-SYMBOLS = ['left', 'foo', 'Bar_2', 'a', 'top', 'x9']
+SYMBOLS = ['left', 'foo', 'Bar_2', 'a', 'top', 'x9', 'next', 'loop', 'stop']
 KEYWORD_SYMBOLS = ['loop', 'next', 'previous', 'playFile', 'fadeIn', 'fadeOut', 'stop', 'close']
 LIST_FUNCS = ['findpos', 'findposnear', 'getaprop', 'getone', 'getpos', 'getpropat', 'getprop']
 STRINGS = ['', 'hello', 'Hello World', 'x', 'a b', '10', 'it is', 'UPPER lower']
